@@ -541,6 +541,110 @@ type rvObs struct {
 	// (recording hash function, replicated PRG/gadget derivation, validated against b and ATilde); nil if not recoverable
 	deriv     *rvDeriv
 	derivNote string
+	// honest message fields (both variants)
+	atildeAll [][]*big.Int
+	eta       []*big.Int
+	mu        []byte
+	// with the verif hooks of /repo (export_verif.go): the exact internal values; nil if the tree has no hooks
+	hk *rvHook
+	// tampered ATilde run with hooks: the challenges Bob re-derives from the altered matrix
+	thetaP [][]*big.Int
+}
+
+// rvHook holds what the `verif` accessors of the multiplier expose (copies), as integers.
+type rvHook struct {
+	g      []*big.Int
+	beta   []byte
+	a0, a1 [][]*big.Int
+	ahat   []*big.Int
+	theta  [][]*big.Int
+	muOf   func(muBold [][]*big.Int) []byte // roMu(muBold) in the state Bob has before his last round
+	bad    string                           // OT correlation inside the multiplier violated
+}
+
+func matBigs[S algebra.PrimeFieldElement[S]](m [][]S) [][]*big.Int {
+	out := make([][]*big.Int, len(m))
+	for i := range m {
+		out[i] = bigsOf(m[i])
+	}
+	return out
+}
+
+type rvOracle[S any] = func(aTilde, muBold [][]S) ([][]S, []byte, error)
+
+// hookOracle: Bob's VerifOracle (snapshot of his session context), nil when the tree has no verif hooks
+func hookOracle[S any](bob any) rvOracle[S] {
+	if h, ok := bob.(interface {
+		VerifOracle() func(aTilde, muBold [][]S) ([][]S, []byte, error)
+	}); ok {
+		return h.VerifOracle()
+	}
+	return nil
+}
+
+func rvCollect[S algebra.PrimeFieldElement[S]](field algebra.PrimeField[S], alice, bob any, orc rvOracle[S], honAT [][]S, l, rho int) *rvHook {
+	if orc == nil || len(honAT) == 0 {
+		return nil
+	}
+	ha, ok1 := alice.(interface{ VerifAlpha() [][2][]S })
+	hb, ok2 := bob.(interface {
+		VerifGadget() []S
+		VerifBeta() []byte
+		VerifGamma() [][]S
+	})
+	if !ok1 || !ok2 {
+		return nil
+	}
+	alpha, gamma := ha.VerifAlpha(), hb.VerifGamma()
+	if alpha == nil || gamma == nil || len(alpha) != len(gamma) {
+		return nil
+	}
+	hk := &rvHook{g: bigsOf(hb.VerifGadget()), beta: hb.VerifBeta()}
+	for j := range alpha {
+		hk.a0 = append(hk.a0, bigsOf(alpha[j][0]))
+		hk.a1 = append(hk.a1, bigsOf(alpha[j][1]))
+		sel := alpha[j][getBit(hk.beta, j)]
+		for i := range gamma[j] {
+			if i >= len(sel) || !gamma[j][i].Equal(sel[i]) {
+				hk.bad = fmt.Sprintf("OT instance j=%d i=%d inside the multiplier: gamma is not alpha[beta_j]", j, i)
+			}
+			if alpha[j][0][i].Equal(alpha[j][1][i]) {
+				hk.bad = fmt.Sprintf("OT instance j=%d i=%d inside the multiplier: the two sender messages are equal", j, i)
+			}
+		}
+	}
+	theta, _, err := orc(honAT, nil)
+	if err != nil {
+		return nil
+	}
+	hk.theta = matBigs(theta)
+	q := field.Order().Big()
+	at0 := bigsOf(honAT[0])
+	for k := 0; k < rho; k++ {
+		v := new(big.Int).Sub(at0[l+k], hk.a0[0][l+k])
+		v.Add(v, hk.a1[0][l+k])
+		hk.ahat = append(hk.ahat, v.Mod(v, q))
+	}
+	hk.muOf = func(mb [][]*big.Int) []byte {
+		ms := make([][]S, len(mb))
+		for i := range mb {
+			ms[i] = scalarsOf(field, mb[i])
+		}
+		_, mu, err := orc(honAT, ms)
+		if err != nil {
+			return nil
+		}
+		return mu
+	}
+	return hk
+}
+
+func cloneMat[S any](m [][]S) [][]S {
+	out := make([][]S, len(m))
+	for i := range m {
+		out[i] = append([]S{}, m[i]...)
+	}
+	return out
 }
 
 type rvDeriv struct {
@@ -613,7 +717,9 @@ func rvRun[P curves.Point[P, B, S], B algebra.FieldElement[B], S algebra.PrimeFi
 	add := func(s S, dl *big.Int) S { return s.Add(scalarsOf(field, []*big.Int{dl})[0]) }
 	var b S
 	var c, dd []S
-	var r2hon [][]S
+	var r2hon, honAT [][]S
+	var honEta []S
+	var honMu []byte
 	if variant == "rvb" {
 		if p := vh.Safely(func() {
 			suite, err := rvole_bbot.NewSuite(l, curve)
@@ -648,6 +754,20 @@ func rvRun[P curves.Point[P, B, S], B algebra.FieldElement[B], S algebra.PrimeFi
 				return
 			}
 			c = cc
+			honAT, honEta, honMu = cloneMat(r3.ATilde), append([]S{}, r3.Eta...), append([]byte{}, r3.Mu...)
+			orc := hookOracle[S](bob)
+			defer func() {
+				if o.err != "" || orc == nil {
+					return
+				}
+				if t == nil && dd != nil {
+					o.hk = rvCollect(field, alice, bob, orc, honAT, l, o.rho)
+				} else if t != nil && t.what[0] == 'A' {
+					if th, _, err := orc(r3.ATilde, nil); err == nil {
+						o.thetaP = matBigs(th)
+					}
+				}
+			}()
 			if t != nil {
 				switch t.what[0] {
 				case 'A':
@@ -716,12 +836,23 @@ func rvRun[P curves.Point[P, B, S], B algebra.FieldElement[B], S algebra.PrimeFi
 				return
 			}
 			c = cc
+			honAT, honEta, honMu = cloneMat(r2.ATilde), append([]S{}, r2.Eta...), append([]byte{}, r2.Mu...)
 			if t == nil {
-				r2hon = make([][]S, len(r2.ATilde))
-				for j := range r2.ATilde {
-					r2hon[j] = append([]S{}, r2.ATilde[j]...)
-				}
+				r2hon = honAT
 			}
+			orc := hookOracle[S](bob)
+			defer func() {
+				if o.err != "" || orc == nil {
+					return
+				}
+				if t == nil && dd != nil {
+					o.hk = rvCollect(field, alice, bob, orc, honAT, l, o.rho)
+				} else if t != nil && t.what[0] == 'A' {
+					if th, _, err := orc(r2.ATilde, nil); err == nil {
+						o.thetaP = matBigs(th)
+					}
+				}
+			}()
 			if t != nil {
 				switch t.what[0] {
 				case 'A':
@@ -756,6 +887,7 @@ func rvRun[P curves.Point[P, B, S], B algebra.FieldElement[B], S algebra.PrimeFi
 	if dd != nil {
 		o.d = bigsOf(dd)
 	}
+	o.atildeAll, o.eta, o.mu = matBigs(honAT), bigsOf(honEta), honMu
 	return o
 }
 
@@ -947,6 +1079,7 @@ func runRvole(d desc) outcome {
 	}
 	verdicts := "1"
 	tparts := []string{"-"}
+	var thetaPs [][][]*big.Int // per ATilde alteration: Bob's re-derived challenges (hooks), nil otherwise
 	for _, t := range ts {
 		t := t
 		ob := rvDispatch(d, &t)
@@ -956,6 +1089,9 @@ func runRvole(d desc) outcome {
 		}
 		verdicts += v
 		tparts = append(tparts, t.what+":"+vh.ZHex(t.dlt))
+		if t.what[0] == 'A' {
+			thetaPs = append(thetaPs, ob.thetaP)
+		}
 		// property: an altered check value makes Bob abort (an altered eta cannot be seen when all beta_j = 0)
 		expectAbort := !(t.what[0] == 'E' && betaZero)
 		if v == "P" || (v == "1" && expectAbort) {
@@ -990,25 +1126,53 @@ func runRvole(d desc) outcome {
 	}
 	w := l + hon.rho
 	gS, a0S, a1S, ahatS := zlist(rnd(hon.xi)), rows(hon.xi, w), rows(hon.xi, w), zlist(rnd(hon.rho))
+	thS := rows(l, hon.rho)
+	zr := func(m [][]*big.Int) string {
+		p := make([]string, len(m))
+		for i := range m {
+			p[i] = zlist(m[i])
+		}
+		return strings.Join(p, ";")
+	}
+	hk := hon.hk
 	dv := hon.deriv
 	if !betaKnown {
 		dv = nil
 	}
-	if dv != nil {
-		zr := func(m [][]*big.Int) string {
-			p := make([]string, len(m))
-			for i := range m {
-				p[i] = zlist(m[i])
-			}
-			return strings.Join(p, ";")
+	if hk != nil {
+		// exact internal values through the verif accessors of the tree
+		if hk.bad != "" {
+			o.prop = append(o.prop, mm(d, "prop", d.kind+"-inner-ot-correlation", "cot_correlation / ot_messages_differ inside the multiplier", hk.bad, true))
 		}
+		o.class += "+hooks"
+		dv = &rvDeriv{g: hk.g, ahat: hk.ahat, a0: hk.a0, a1: hk.a1, atilde: hon.atildeAll}
+		thS = zr(hk.theta)
+		bs.Reset()
+		for j := 0; j < hon.xi; j++ {
+			bs.WriteByte('0' + getBit(hk.beta, j))
+		}
+		betaKnown = true
+	}
+	if dv != nil {
 		gS, a0S, a1S, ahatS = zlist(dv.g), zr(dv.a0), zr(dv.a1), zlist(dv.ahat)
 	} else if d.kind == "rvs" {
 		o.notes = append(o.notes, "rvs: internal values not recoverable ("+hon.derivNote+") for "+d.text()+": model run on idealised values")
 	}
+	// one table of re-derived challenges per ATilde alteration (exact with hooks, idealised otherwise)
+	thp := []string{}
+	for _, tp := range thetaPs {
+		if hk != nil && tp != nil {
+			thp = append(thp, zr(tp))
+		} else {
+			thp = append(thp, rows(l, hon.rho))
+		}
+	}
+	if len(thp) == 0 {
+		thp = append(thp, rows(l, hon.rho))
+	}
 	line := fmt.Sprintf("V 0 P=%s L=%d RHO=%d XI=%d A=%s G=%s BETA=%s A0=%s A1=%s AHAT=%s TH=%s THP=%s TAMPER=%s",
 		vh.ZHex(hon.q), l, hon.rho, hon.xi, zlist(hon.a), gS, bs.String(), a0S, a1S,
-		ahatS, rows(l, hon.rho), rows(l, hon.rho), strings.Join(tparts, ";"))
+		ahatS, thS, strings.Join(thp, "|"), strings.Join(tparts, ";"))
 	o.lines = []string{line}
 	pf := len(o.prop) > 0
 	o.cmp = func(outs []string) []vh.Mismatch {
@@ -1039,20 +1203,37 @@ func runRvole(d desc) outcome {
 			// the model, fed with the recovered gadget vector, OT messages and aHat, predicts every observable
 			// that does not depend on the random oracle: b, c, ATilde (whole matrix) and d
 			if kv["B"] != vh.ZHex(hon.b) {
-				ms = append(ms, mm(d, "corr", "rvs-b", "correspondence bob_b", "model "+kv["B"]+" impl "+vh.ZHex(hon.b), pf))
+				ms = append(ms, mm(d, "corr", d.kind+"-b", "correspondence bob_b", "model "+kv["B"]+" impl "+vh.ZHex(hon.b), pf))
 			}
 			if kv["C"] != zlist(hon.c) {
-				ms = append(ms, mm(d, "corr", "rvs-c", "correspondence alice_c", "model "+kv["C"]+" impl "+zlist(hon.c), pf))
+				ms = append(ms, mm(d, "corr", d.kind+"-c", "correspondence alice_c", "model "+kv["C"]+" impl "+zlist(hon.c), pf))
 			}
 			if kv["D"] != zlist(hon.d) {
-				ms = append(ms, mm(d, "corr", "rvs-d", "correspondence bob_d", "model "+kv["D"]+" impl "+zlist(hon.d), pf))
+				ms = append(ms, mm(d, "corr", d.kind+"-d", "correspondence bob_d (g . dDot)", "model "+kv["D"]+" impl "+zlist(hon.d), pf))
 			}
 			at := make([]string, len(dv.atilde))
 			for j := range dv.atilde {
 				at[j] = zlist(dv.atilde[j])
 			}
+			if hk != nil {
+				// with the real challenges theta the model also predicts Eta and (through Bob's own roMu) Mu
+				if kv["ETA"] != zlist(hon.eta) {
+					ms = append(ms, mm(d, "corr", d.kind+"-eta", "correspondence alice_eta", "model "+kv["ETA"]+" impl "+zlist(hon.eta), pf))
+				}
+				var mb [][]*big.Int
+				for _, r := range strings.Split(kv["MU"], ";") {
+					var row []*big.Int
+					for _, x := range strings.Split(r, ",") {
+						row = append(row, vh.UnZHex(x))
+					}
+					mb = append(mb, row)
+				}
+				if mu := hk.muOf(mb); !bytes.Equal(mu, hon.mu) {
+					ms = append(ms, mm(d, "corr", d.kind+"-mu", "correspondence alice_mubold / roMu", "roMu(model muBold) "+vh.Hex(mu)+" impl "+vh.Hex(hon.mu), pf))
+				}
+			}
 			if kv["AT"] != strings.Join(at, ";") {
-				ms = append(ms, mm(d, "corr", "rvs-atilde", "correspondence alice_atilde", "model ATilde differs from Round2P2P.ATilde", pf))
+				ms = append(ms, mm(d, "corr", d.kind+"-atilde", "correspondence alice_atilde", "model ATilde differs from the message's ATilde", pf))
 			}
 		}
 		if betaKnown && (mb.Sign() == 0) != betaZero {
